@@ -27,12 +27,16 @@ pub struct Link {
     /// requesting links only: the signature is wrapped, the `fx` parameter sits on its own line
     #[serde(default)]
     pub wrapped: bool,
+    /// requesting links only: the whole function is written on one line
+    #[serde(default)]
+    pub oneline: bool,
 }
 
-fn fxdef(requests: bool, wrapped: bool) -> Item {
-    let mut f = Item::fixture("fx", if requests { &["fx"] } else { &[] });
-    if let Item::Fixture { wrapped: w, .. } = &mut f {
-        *w = wrapped && requests;
+fn fxdef(l: &Link) -> Item {
+    let mut f = Item::fixture("fx", if l.requests { &["fx"] } else { &[] });
+    if let Item::Fixture { wrapped: w, oneline: o, .. } = &mut f {
+        *w = l.wrapped && l.requests;
+        *o = l.oneline && l.requests;
     }
     f
 }
@@ -55,14 +59,14 @@ impl Chain {
             let own = if k == d - 1 { self.links.iter().find(|l| l.pos == 0) } else { None };
             if let Some(l) = own {
                 if !l.below {
-                    items.push(fxdef(l.requests, l.wrapped));
+                    items.push(fxdef(l));
                 }
             }
             items.push(Item::test("t", &["fx"]));
             items.push(Item::fixture(&format!("g{}", k), &["fx"]));
             if let Some(l) = own {
                 if l.below {
-                    items.push(fxdef(l.requests, l.wrapped));
+                    items.push(fxdef(l));
                 }
             }
             files.push(FileSpec::new(&format!("{}test_m{}.py", DIRS[k], k), items));
@@ -81,13 +85,13 @@ impl Chain {
                     ));
                     files.push(FileSpec::new(
                         &format!("{}hh{}.py", dir, lvl),
-                        vec![fxdef(l.requests, l.wrapped)],
+                        vec![fxdef(l)],
                     ));
                 } else {
                     // a dependent fixture written above the (possibly self-requesting) definition
                     files.push(FileSpec::new(
                         &format!("{}conftest.py", dir),
-                        vec![Item::fixture(&format!("c{}", lvl), &["fx"]), fxdef(l.requests, l.wrapped)],
+                        vec![Item::fixture(&format!("c{}", lvl), &["fx"]), fxdef(l)],
                     ));
                 }
             } else if l.pos == d + 1 {
@@ -114,16 +118,16 @@ impl Chain {
             }
             let positions: Vec<usize> = (0..npos).filter(|p| mask & (1 << p) != 0).collect();
             // per link options
-            // (imported, requests, below, wrapped)
-            let opts: Vec<Vec<(bool, bool, bool, bool)>> = positions
+            // (imported, requests, below, wrapped, oneline)
+            let opts: Vec<Vec<(bool, bool, bool, bool, bool)>> = positions
                 .iter()
                 .map(|&p| {
                     if p == 0 {
-                        vec![(false, false, false, false), (false, true, false, false), (false, false, true, false), (false, true, true, false), (false, true, false, true), (false, true, true, true)]
+                        vec![(false, false, false, false, false), (false, true, false, false, false), (false, false, true, false, false), (false, true, true, false, false), (false, true, false, true, false), (false, true, true, true, false), (false, true, false, false, true), (false, true, true, false, true)]
                     } else if p <= depth {
-                        vec![(false, false, false, false), (false, true, false, false), (true, false, false, false), (true, true, false, false), (false, true, false, true), (true, true, false, true)]
+                        vec![(false, false, false, false, false), (false, true, false, false, false), (true, false, false, false, false), (true, true, false, false, false), (false, true, false, true, false), (true, true, false, true, false), (false, true, false, false, true)]
                     } else {
-                        vec![(false, false, false, false)]
+                        vec![(false, false, false, false, false)]
                     }
                 })
                 .collect();
@@ -140,6 +144,7 @@ impl Chain {
                             requests: opts[i][idx[i]].1,
                             below: opts[i][idx[i]].2,
                             wrapped: opts[i][idx[i]].3,
+                            oneline: opts[i][idx[i]].4,
                         })
                         .collect(),
                 });
